@@ -302,6 +302,25 @@ class Lib:
                                patterns=[P(i, j)]))
         return Opaque("fn2", uf=P)
 
+    def sf_db_sealed(self, ex, node, st):
+        return self.ctx.objects.db(ex, st).get("sealed")
+
+    def sf_db_was_sealed(self, ex, node, st):
+        d = st.ghost.get("__db_old__") or ex.entry.ghost.get("__db__")
+        return d.get("sealed")
+
+    def sf_db_rows(self, ex, node, st):
+        name = ex.eval(node.args[0], st)
+        t = self.ctx.objects.db(ex, st).get("tables").get(name)
+        if t is None:
+            return Seq.of([], "list")
+        return t
+
+    def sf_db_rows_before(self, ex, node, st):
+        name = ex.eval(node.args[0], st)
+        d = st.ghost.get("__db_old__") or ex.entry.ghost.get("__db__")
+        return d.get("tables")[name]
+
     def sf_cut(self, ex, node, st):
         """Ghost assertion: proved here (obligation), then available as a hypothesis."""
         saved = ex.checking
@@ -453,7 +472,11 @@ class Lib:
         argnames = params[:len(node.args)] + [k.arg for k in node.keywords]
         for mname in c.modifies:
             if mname == "__db__":
-                st.ghost["__db__"] = self.ctx.havoc_db(ex, st, st.ghost.get("__db__"))
+                old_db = st.ghost.get("__db__")
+                st.ghost = dict(st.ghost)
+                st.ghost["__db_old__"] = old_db
+                st.ghost["__db__"] = self.ctx.havoc_db(ex, st, old_db)
+                fr.ghost = st.ghost
                 continue
             if mname not in bind:
                 continue
@@ -926,7 +949,9 @@ class Lib:
                 raise EngineError("symbolic index into zip(*rows)")
             return Seq(rows.n, lambda i, j=j: rows.at(i)[j], "tuple")
 
-        return Seq(n, col, "gen")
+        out = Seq(n, col, "gen")
+        out.width = k
+        return out
 
     def b_enumerate(self, ex, st, args, kwargs, node):
         s = ex.as_seq(args[0], st)
@@ -1341,7 +1366,8 @@ class Lib:
         if not isinstance(n, int) or n < 2:
             raise EngineError("linspace with symbolic / tiny count outside the subset")
         if not is_z3(a) and not is_z3(b):
-            return Seq.of([Fraction(a) + Fraction(i) * (Fraction(b) - Fraction(a)) / (n - 1) for i in range(n)], "array")
+            step = (Fraction(b) - Fraction(a)) / (n - 1)
+            return Seq(n, lambda i: Fraction(a) + Fraction(i) * step if isinstance(i, int) else to_z3(Fraction(a)) + z3.ToReal(to_z3(i)) * to_z3(step), "array")
         return Seq(n, lambda i: a + as_real(i) * (b - a) / (n - 1), "array")
 
     def b_np_allclose(self, ex, st, args, kwargs, node):
